@@ -10,6 +10,7 @@ CONSTANTS
     NotifyArm = TRUE
     AwaitBodyOnTimeout = TRUE
     Timeouts = TRUE
+    AcquireIgnoresTimeout = TRUE
     BroadcastAll = TRUE
 SPECIFICATION LiveSpec
 PROPERTIES EventuallyCompletes
